@@ -56,6 +56,11 @@ RULE = (
     "1..max(32, 2^18/n) with size-one parts as python floats, plus 11 single scalar strikes), parity / forward on the whole "
     "vector, and in the box bounds / monotone / call-spread / convex / digital on the whole vector, density >= -1e-8, COS ~ closed "
     "form (Black-Scholes) and COS ~ FFT on all elements; "
+    "ENTRY POINTS of the same contract: for every main / edge / live case the call, put and forward sharing maturity, strike and "
+    "notional are also built as Product objects (notional omitted, 1.0, one positive non-default value 0.1..1000 and one negative value; "
+    "positional or keyword constructor arguments; strike a python float and a vector of 2..3 box strikes) and priced through the generic "
+    "COSPricer.price(product) (the only generic price(product) of the three pricers): price(call) - price(put) = price(forward) within "
+    "1e-10*spot*max(1,|notional|), and price(.) = s * (call / put / forward / df*(F-K)) with one common s in {1, notional}; "
     "and synthetic densities that are exactly an N-term cosine polynomial on [a,b] "
     "(N 2..7, n = N + {0,1,9,40}, random coefficients, interval (-lo, hi) with lo, hi in [0.3,1.5]) for the replay of the exactness theorems. "
     "Measured once on the unchanged tree (900 draws, seeds 0..29): inside the box doubling n and/or l changes call/spot "
@@ -104,6 +109,9 @@ ASSUMPTIONS = [
     "COS - closed form 8e-14 abs; COS - FFT 1.2e-6 abs = 0.04 x tolerance.  The box for n != 10000 is the same rule "
     "|phi_L(T, n*pi/(2(b-a)))| <= 1e-10 evaluated with that n; lengths beyond len*n = 2^23.75 (~270 MB per complex matrix in the "
     "unchanged code) are not generated",
+    "price(product) and the notional: the statement fixes the identities, not the scaling convention of a Product's notional; the "
+    "unchanged tree ignores the notional in COSPricer.price for all three contracts (s = 1, measured: price == direct method bit for "
+    "bit), a tree scaling all three by the notional (s = notional) would pass as well; any mixture fails parity [0 observed, seeds 0..3]",
     "density quadrature (harness side): a failing mass / tail verdict at 2049 (4097) points is re-evaluated at 4x the points, up to "
     "8193+, before it is reported (HEM sigma = 0.008, T = 0.12: 1.8e-6 at 2049 points, 9e-14 at 8193)",
     "the arguments the closed form hands to norm.cdf are observed by replacing the name `norm` inside "
@@ -274,6 +282,71 @@ def exact_probes(ctx, B):
     if not (abs(pc - call[i0]) <= 1e-11 * spot and abs(pp - put[i0]) <= 1e-11 * spot and abs(pf - fwdc[i0]) <= 1e-11 * spot):
         ctx.fail("oracle", "c18.cos.price_dispatch", case, {"price": [pc, pp, pf], "direct": [call[i0], put[i0], fwdc[i0]]}, cls=B.cls)
     return call, put, fwdc, dig
+
+
+def draw_contracts(rng):
+    """the same three contracts (call, put, forward sharing maturity, strike and notional) as Product objects for the generic
+    entry point COSPricer.price(product), over the documented constructor arguments of Product: notional omitted (default),
+    given as 1.0, a non-default positive and a negative one; strike a python float and a vector of strikes"""
+    pos = rng.choice([0.25, 0.5, 2.0, 2.5, 10.0, 1000.0, round(rng.uniform(0.1, 50.0), 3)])
+    neg = -rng.choice([1.0, 0.5, 3.0, round(rng.uniform(0.1, 50.0), 3)])
+    return dict(notionals=[None, 1.0, pos, neg], pick=[rng.random() for _ in range(4)], kwarg=rng.random() < 0.5)
+
+
+def contract_probes(ctx, B):
+    """every public entry point that prices the SAME contract: the direct methods call / put / forward and the generic
+    price(product), the latter with default and non-default Product constructor arguments.  Demanded (exactly the statement's
+    identity, inside one entry point): price(call) - price(put) = price(forward) for three products that share maturity, strike
+    and notional, and price(forward) = s * df * (F - K) with ONE factor s in {1, notional} (either scaling convention); then,
+    between entry points, the three prices are that same s times the direct methods (unchanged tree: s = 1 throughout)."""
+    case, cos, T, K, spot = B.case, B.cos, B.T, B.K, B.spot
+    con = case["contracts"]
+    m = len(K)
+    idx = sorted({min(m - 1, int(u * m)) for u in con["pick"][:3]})
+    shapes = [float(K[min(m - 1, int(con["pick"][3] * m))])]
+    if len(idx) >= 2:
+        shapes.append(K[idx].copy())
+    for N in con["notionals"]:
+        for k in shapes:
+            kv = np.atleast_1d(np.asarray(k, dtype=float))
+            def prod(payoff):
+                if N is None:
+                    return Product(Spot(), payoff, T)
+                return Product(payoff_underlying=Spot(), payoff=payoff, maturity=T, notional=N) if con["kwarg"] else Product(Spot(), payoff, T, N)
+            nv = 1.0 if N is None else float(N)
+            inp = dict(case, contract=dict(notional=N, K=[float(x) for x in kv], scalar=bool(np.ndim(k) == 0)))
+            cls = dict(B.cls, notional="default" if N is None else ("one" if nv == 1.0 else ("negative" if nv < 0 else "positive")))
+            ctx.count("c18.price.contract_parity", inp, nontrivial=B.inbox and N is not None and nv != 1.0,
+                      branch=f"{cls['notional']}:{'scalar' if np.ndim(k) == 0 else 'vector'}")
+            pc = np.asarray(cos.price(prod(Vanilla(k, PayoffType.CALL))), dtype=float).reshape(-1)
+            pp = np.asarray(cos.price(prod(Vanilla(k, PayoffType.PUT))), dtype=float).reshape(-1)
+            pf = np.asarray(cos.price(prod(Forward(k))), dtype=float).reshape(-1)
+            dc, dp, dfw = (np.asarray(f(k, T), dtype=float).reshape(-1) for f in (cos.call, cos.put, cos.forward))
+            ref = B.df * (B.F - kv)
+            tol = 1e-10 * spot * max(1.0, abs(nv))
+            det = {"notional": N, "K": kv, "price(call)": pc, "price(put)": pp, "price(forward)": pf, "df*(F-K)": ref,
+                   "call": dc, "put": dp, "forward": dfw, "tol": tol}
+            if not (pc.shape == pp.shape == pf.shape == kv.shape):
+                ctx.fail("oracle", "c18.price.contract_parity", inp, dict(det, what="price(product) does not return one price per strike"), cls=cls)
+                continue
+            err = float(np.max(np.abs(pc - pp - pf)))
+            note("price.contract_parity", err, tol)
+            if not err <= tol:
+                ctx.fail("oracle", "c18.price.contract_parity", inp,
+                         dict(det, what="price(call) - price(put) != price(forward) for products sharing maturity, strike and notional"), cls=cls)
+                continue
+            # the level: one common factor s in {1, notional} (the convention is not part of the statement, its consistency is)
+            ok = False
+            for s in (1.0, nv):
+                e = max(float(np.max(np.abs(pf - s * ref))), float(np.max(np.abs(pf - s * dfw))), float(np.max(np.abs(pc - s * dc))),
+                        float(np.max(np.abs(pp - s * dp))))
+                if e <= tol:
+                    ok = True
+                    note("price.entry_points", e, tol)
+                    break
+            if not ok:
+                ctx.fail("oracle", "c18.price.entry_points", inp,
+                         dict(det, what="price(product) is not one common factor (1 or the notional) times call / put / forward = df*(F-K)"), cls=cls)
 
 
 def shape_violation(K, call, put, df, F, spot):
@@ -1301,11 +1374,14 @@ def run_case(ctx, case, rng, heavy=True):
         case["hist"] = draw_history(rng, case["T"])
     if "live" not in case:
         case["live"] = draw_live(rng, case)
+    if "contracts" not in case:
+        case["contracts"] = draw_contracts(rng)
     B = Built(case)
     ctx.branches[f"box:{case['fam']}:{'in' if B.inbox else 'out'}"] += 1
     if B.inbox and not B.fftbox:
         ctx.branches["box:fft_excluded_heavy_tail"] += 1
     call, put, fwdc, dig = exact_probes(ctx, B)
+    contract_probes(ctx, B)
     composition_corr(ctx, B, call, put, fwdc, dig)
     coefficient_corr(ctx, B, rng)
     cdf_probe(ctx, B, dig)
@@ -1382,7 +1458,7 @@ def search(ctx):
 
 def replay(ctx, rec):
     import random
-    case = {k: v for k, v in rec["input"].items() if k not in ("k", "ks", "n", "T_used")}
+    case = {k: v for k, v in rec["input"].items() if k not in ("k", "ks", "n", "T_used", "contract")}
     rng = random.Random(0)
     if case.get("kind") == "bsdeg":
         run_bs_degenerate(ctx, case)
